@@ -1,7 +1,7 @@
 (* C19 round trip, part 1: decimal output of the writer read back by ParseNumber *)
 From Coq Require Import List NArith ZArith Bool Lia.
 From OlaBase Require Import Bytes.
-From C19 Require Import Gen Model Spec ProofsPatch.
+From C19 Require Import Gen Model Spec ProofsPatch ProofsParse.
 Import ListNotations.
 Local Open Scope N_scope.
 
@@ -126,11 +126,19 @@ Proof.
     rewrite Hu. apply IH; assumption.
 Qed.
 
+Section WithPut.
+Variable put : N -> list N -> jv -> list (list N * jv) -> list (list N * jv).
+Local Notation parse_value := (parse_value_g put).
+Local Notation parse_elems := (parse_elems_g put).
+Local Notation parse_members := (parse_members_g put).
+Local Notation parse_text_fuel := (parse_text_fuel_g put).
+Local Notation parse_text := (parse_text_g put).
+
 (* ParseTrimmedInput dispatches a text starting with a digit or '-' to ParseNumber *)
 Lemma parse_value_number : forall f d c r, c = 45 \/ is_digit c = true ->
   parse_value (S f) d (c :: r) = parse_number (c :: r).
 Proof.
-  intros f d c r Hc. cbn [parse_value].
+  intros f d c r Hc. rewrite pv_step.
   assert (c <> 34 /\ c <> 116 /\ c <> 102 /\ c <> 110) as [H1 [H2 [H3 H4]]].
   { destruct Hc as [Hc|Hc]; [subst c; repeat split; discriminate|].
     unfold is_digit in Hc. apply andb_true_iff in Hc. destruct Hc as [Ha Hb].
@@ -145,6 +153,8 @@ Proof.
   { destruct Hc as [Hc|Hc]; [subst c; reflexivity|rewrite Hc; apply orb_true_r]. }
   rewrite E4. reflexivity.
 Qed.
+
+End WithPut.
 
 (* the classification the parser gives to an integer value *)
 Definition canon_nat (n : N) : jv := if 4294967295 <? n then JUInt64 n else JUInt n.
